@@ -29,7 +29,8 @@ theorem matchScales_spec {t : Nat} [Fact t.Prime] (ht : t < 2 ^ 64) (s0 s1 : Nat
 
 example : (matchScales 257 3 5).1 * 3 % 257 = (matchScales 257 3 5).2 * 5 % 257 := by decide
 
-/-- `Rescale`: scale' = scale·q_ℓ⁻¹ (mod t), level' = level − 1, degree unchanged, message unchanged. -/
+/-- `Rescale`: scale' = scale·q_ℓ⁻¹ (mod t), level' = level − 1, degree of op0 WHATEVER the receiver's degree
+    was (fix C05-6), message unchanged. -/
 theorem rescale_scale (c : Cfg) [Fact c.t.Prime] (ht : c.t < 2 ^ 64) (hQ : ∀ q ∈ c.qs, (q : ZMod c.t) ≠ 0)
     (o : Out) (a r : Reg) (ha : (a.scale : ZMod c.t) ≠ 0) (hsi : c.si = false)
     (h : step c .rescale o a .none = .ok [r]) :
@@ -55,11 +56,10 @@ theorem mul_scale_invariant (c : Cfg) (relin : Bool) (a b r : Reg) (lvl : Nat)
     r.level = lvl ∧ r.scale = a.scale * b.scale % c.t * inv c.t (c.t - qModT c lvl) % c.t
     ∧ r.degree = (if relin then 1 else 2) ∧ a.degree = 1 ∧ b.degree = 1 := by
   unfold tensorSI at h
-  split_ifs at h with h1 h2
+  split_ifs at h
   all_goals (try simp only [ok1] at h)
   all_goals (cases h)
-  all_goals (simp only [not_or, not_not] at h1)
-  all_goals (simp [*])
+  all_goals simp_all
 
 /-! ## meta_spec: level / degree / scale of the output, decision logic stated outright -/
 
@@ -91,12 +91,12 @@ theorem meta_add_matched (c : Cfg) (isSub : Bool) (o : Out) (a rb r : Reg) (hs :
   all_goals (cases h)
   all_goals (exact ⟨rfl, rfl, rfl⟩)
 
-/-- scalar operands (`*big.Int`, `uint64`, `int64`, `int`) of Add/Sub: level = min(op0, opOut), degree of
-    op0, and the scale is whatever opOut carried before the call (the code does not assign it). -/
+/-- scalar operands (`*big.Int`, `uint64`, `int64`, `int`) of Add/Sub: level = min(op0, opOut), degree and
+    scale of op0 (`opOut.Scale = op0.Scale`, fix C05-2). -/
 theorem meta_add_scalar (c : Cfg) (isSub : Bool) (o : Out) (a r : Reg) (x : Nat)
     (h : addSub c isSub o a (.u64 x) = .ok [r]) :
     r.level = min a.level (outReg c o a a.degree a.level).level ∧ r.degree = a.degree
-    ∧ r.scale = (outReg c o a a.degree a.level).scale := by
+    ∧ r.scale = a.scale := by
   unfold addSub at h
   simp only [Arg.reg?, Arg.isScalar, if_true] at h
   split_ifs at h
@@ -217,32 +217,39 @@ example : ∀ q ∈ cEx.qs, (q : ZMod cEx.t) ≠ 0 := by
   simp [cEx] at hq
   rcases hq with rfl | rfl | rfl <;> decide
 
-/-! ## the behaviours the hypotheses exclude, exhibited on the model (each is a probe on the real code) -/
+/-! ## behaviours repaired by the `fix:` commits C05-1 … C05-9 and C13-1 (formerly `outside` / counterexamples) -/
 
-/-- `AddNew(ct, 5)` with ct.Scale = 2: the returned register has scale 1 and does NOT decode to m + 5
-    (here m = 3: decoded 16 instead of 8).  evaluator.go:197–227 never assigns opOut.Scale. -/
-theorem scalar_out_scale_counterexample :
-    ∃ r, step cEx .add .new { level := 2, degree := 1, scale := 2, slots := [6, 0] } (.u64 5) = .ok [r]
-      ∧ val cEx.t r = [16, 10] ∧ val cEx.t { level := 2, degree := 1, scale := 2, slots := [6, 0] } = [3, 0] := by
-  refine ⟨{ level := 2, degree := 1, scale := 1, slots := [16, 10] }, ?_, ?_, ?_⟩ <;> decide +kernel
+/-- `AddNew(ct, 5)` with ct.Scale = 2 (message 3): the result carries op0's scale and decodes to 8
+    (before fix C05-2 it carried scale 1 and decoded to 16). -/
+theorem scalar_out_scale_fixed :
+    step cEx .add .new { level := 2, degree := 1, scale := 2, slots := [6, 0] } (.u64 5)
+      = .ok [{ level := 2, degree := 1, scale := 2, slots := [16, 10] }]
+    ∧ val cEx.t { level := 2, degree := 1, scale := 2, slots := [16, 10] } = [8, 5]
+    ∧ val cEx.t { level := 2, degree := 1, scale := 2, slots := [6, 0] } = [3, 0] := by
+  refine ⟨?_, ?_, ?_⟩ <;> decide +kernel
 
-/-- `Sub(ct₁, ct₂)` with equal scales and deg ct₂ > deg ct₁: outside the model (limb 2 is copied, not negated). -/
-theorem sub_higher_degree_outside (c : Cfg) (o : Out) (a rb : Reg) (hs : a.scale = rb.scale)
-    (hd : rb.degree > a.degree) : step c .sub o a (.reg rb) = .error .outside := by
-  have h0 : a.degree + rb.degree ≠ 0 := by omega
-  simp [step, addSub, Arg.reg?, hs, hd, h0]
-  omega
+/-- `Sub(ct₁, ct₂)` with equal scales and deg ct₂ > deg ct₁ is an ordinary modelled call (fix C05-3
+    negates the copied limbs); its value is given by `step_sound`. -/
+theorem sub_higher_degree_modelled (c : Cfg) (o : Out) (a rb : Reg) (hs : a.scale = rb.scale)
+    (hd : rb.degree > a.degree) :
+    (step c .sub o a (.reg rb)).toOption.map (fun l => l.map fun r => (r.scale, r.slots))
+      = some [(a.scale, vsub c.t a.slots rb.slots)] := by
+  have h0 : ¬ (a.degree = 0 ∧ rb.degree = 0) := by omega
+  have h1 : a.degree + rb.degree ≠ 0 := by omega
+  simp only [step, addSub, Arg.reg?, hs, h1, if_true, if_false, ok1, Except.toOption, Option.map_some, List.map]
 
-/-- `MulThenAdd(op0, scalar, opOut)` with op0 below opOut's level, or opOut of higher degree: outside. -/
-theorem mta_scalar_outside (c : Cfg) (a R : Reg) (x : Nat) (h : a.level < R.level ∨ R.degree > a.degree) :
-    step c .mta (.into R) a (.u64 x) = .error .outside := by
-  simp [step, accOp, Arg.reg?, Arg.isScalar, h]
+/-- `MulThenAdd(op0, scalar, opOut)`: level min(ℓ0, ℓout), degree max(d0, dout), accumulator's scale
+    (fix C13-1; before it the call was outside the model for ℓ0 < ℓout or dout > d0). -/
+theorem mta_scalar_meta (c : Cfg) (a R : Reg) (x : Nat) :
+    (step c .mta (.into R) a (.u64 x)).toOption.map (fun l => l.map fun r => (r.level, r.degree, r.scale))
+      = some [(min a.level R.level, max a.degree R.degree, R.scale)] := by
+  simp [step, accOp, Arg.reg?, Arg.isScalar, ok1, Except.toOption]
 
-/-- `Rescale(op0, opOut)` with different degrees: outside (index panic or dropped limb). -/
-theorem rescale_degree_outside (c : Cfg) (a R : Reg) (hsi : c.si = false) (h0 : a.level ≠ 0)
-    (hl : ¬ R.level + 1 < a.level) (hd : R.degree ≠ a.degree) :
-    step c .rescale (.into R) a .none = .error .outside := by
-  simp [step, rescaleOp, outReg, hsi, h0, hl, hd]
+/-- a degree-0 `*rlwe.Ciphertext` as op0 of a product is an error (fix C05-9) -/
+theorem errors_deg0_op0 (c : Cfg) (relin : Bool) (a b r : Reg) (lvl : Nat) (ha : a.degree = 0) :
+    tensorStd c relin a b lvl = .error .err ∧ tensorSI c relin a b lvl = .error .err
+    ∧ accReg c relin a b r lvl = .error .err := by
+  refine ⟨?_, ?_, ?_⟩ <;> simp [tensorStd, tensorSI, accReg, ha]
 
 /-! ## abstract phase identities (link to ciphertexts): phase(ct) = T⁻¹·Δ·m + e over any commutative ring -/
 
@@ -285,10 +292,10 @@ end Lattigo.BGV.C05
 #print axioms Lattigo.BGV.C05.step_sound
 #print axioms Lattigo.BGV.C05.program_sound
 #print axioms Lattigo.BGV.C05.scalar_cast
-#print axioms Lattigo.BGV.C05.scalar_out_scale_counterexample
-#print axioms Lattigo.BGV.C05.sub_higher_degree_outside
-#print axioms Lattigo.BGV.C05.mta_scalar_outside
-#print axioms Lattigo.BGV.C05.rescale_degree_outside
+#print axioms Lattigo.BGV.C05.scalar_out_scale_fixed
+#print axioms Lattigo.BGV.C05.sub_higher_degree_modelled
+#print axioms Lattigo.BGV.C05.mta_scalar_meta
+#print axioms Lattigo.BGV.C05.errors_deg0_op0
 #print axioms Lattigo.BGV.C05.phase_add
 #print axioms Lattigo.BGV.C05.phase_mul
 #print axioms Lattigo.BGV.C05.phase_mul_noise
